@@ -7,7 +7,7 @@
 (* the operators they use, so a malformed value is a failed clause and     *)
 (* never a TLC evaluation error.                                           *)
 (***************************************************************************)
-EXTENDS FMMetrics, FMEq
+EXTENDS FMMetrics, FMEq, FMFormats
 
 \* A clause is <<name, truth>> or <<name, truth, why>>: `why` names the deviation
 \* (a known finding modelled in the specification) that explains a failure, or "".
@@ -20,7 +20,9 @@ Why(label, explains) == IF explains THEN label ELSE ""
 Guarded(g, cs) == IF g THEN cs ELSE <<>>
 
 EmptyModel == [root |-> "", feats |-> <<>>, rels |-> <<>>, ctcs |-> <<>>]
-InitCur == [model |-> EmptyModel, memo |-> <<>>, other |-> EmptyModel]
+InitCur == [model |-> EmptyModel, memo |-> <<>>, other |-> EmptyModel,
+            m0 |-> EmptyModel, m1 |-> EmptyModel, gen |-> 0, wd |-> <<>>, wmemo |-> <<>>, fmt |-> "",
+            pj |-> [out |-> "none", anom |-> <<>>, post |-> EmptyModel]]
 
 BuilderActions == {"NewModel", "AddRelation", "SetAbstract", "SetType", "SetFCard",
                    "AddAttribute", "AddConstraint"}
@@ -258,6 +260,51 @@ CompareClauses(cur, e) ==
                       a.ctcs[R.ctcs[k].i].ast = b.ctcs[R.ctcs[k].j].ast)]))
 
 ---------------------------------------------------------------------------
+(* Serialisation and round trips (C01, C05-C08, C12, C02).                 *)
+(*   cur.m0   the model before the first Write of the history              *)
+(*   cur.m1   the first read-back; cur.gen the number of reads so far      *)
+(*   cur.wd   digests of the writes so far; cur.wmemo (fmt, model, digest) *)
+WriteClauses(cur, e) ==
+  LET m   == cur.model
+      fmt == e.args.fmt
+      p   == PropOfFmt(fmt)
+      R   == e.ret
+      k   == Len(cur.wd) + 1                 \* this is the k-th write
+      src == IF cur.gen = 0 THEN m ELSE cur.m0
+      frag == fmt \in Formats /\ InFrag(fmt, src)
+      same == {i \in DOMAIN cur.wmemo : cur.wmemo[i].fmt = fmt /\ cur.wmemo[i].model = m}
+  IN
+  << <<"C12.pure." \o fmt,    e.anom = <<>> /\ e.post = m>>,
+     <<"C12.retfile." \o fmt, e.out = "value" => R.same>>,
+     <<"C12.utf8." \o fmt,    e.out = "value" => R.utf8>>,
+     <<"C12.functional." \o fmt, e.out = "value" => \A i \in same : cur.wmemo[i].digest = R.digest>>,
+     <<p \o ".write.total",   frag => e.out = "value">>,
+     \* cycle rule: from the second write on the text no longer changes
+     <<p \o ".cycle.text",    frag /\ e.out = "value" /\ k >= 3 /\ cur.fmt = fmt => R.digest = cur.wd[k - 1]>>,
+     <<p \o ".cycle.text1",   frag /\ e.out = "value" /\ k = 2 /\ cur.fmt = fmt /\ SameModel(cur.m1, cur.m0)
+                                 => R.digest = cur.wd[1]>> >>
+
+ReadClauses(cur, e) ==
+  LET fmt == e.args.fmt
+      p   == PropOfFmt(fmt)
+      b   == e.post
+      frag == fmt \in Formats /\ InFrag(fmt, cur.m0) /\ cur.fmt = fmt
+      ok  == e.out = "value" /\ e.anom = <<>>
+  IN
+  << <<p \o ".read.total", frag => e.out = "value">>,
+     <<"C02.read.shape",    e.out = "value" => e.anom = <<>> >> >>
+  \o Guarded(ok, WfClauses("C02", b) \o AstClauses("C02", b)
+       \o << <<"C02.ctcfeatures", (\A i \in DOMAIN b.ctcs : WellShaped(b.ctcs[i].ast)) =>
+                  /\ e.ret.errors = <<>> /\ Len(e.ret.ctcfeatures) = Len(b.ctcs)
+                  /\ \A i \in DOMAIN b.ctcs : IsPropT(b.ctcs[i].ast) =>
+                        (NoDup(e.ret.ctcfeatures[i]) /\ SetOf(e.ret.ctcfeatures[i]) = VarsOf(b.ctcs[i].ast))>> >>)
+  \o Guarded(fmt = "json" /\ frag,
+       << <<"C05.parsejson", ok /\ cur.pj.out = "value" /\ cur.pj.anom = <<>> /\ cur.pj.post = b>> >>)
+  \o Guarded(ok /\ frag /\ cur.gen = 0 /\ WellFormedTree(b), PreserveClauses(p, fmt, cur.m0, b))
+  \o Guarded(frag /\ cur.gen >= 1,
+       << <<p \o ".cycle.model", ok /\ SameModel(b, cur.m1)>> >>)
+
+---------------------------------------------------------------------------
 ClassifyEventClauses(cur, e) ==
   << <<"C18.classify.sameast", e.ret.ast = e.args.ast>> >> \o ClassifyClauses(e.ret)
 
@@ -269,14 +316,30 @@ Clauses(cur, e) ==
     [] e.a = "Exec"           -> ExecClauses(cur, e)
     [] e.a = "GenAttr"        -> GenAttrClauses(cur, e)
     [] e.a = "Compare"        -> CompareClauses(cur, e)
+    [] e.a = "Write"          -> WriteClauses(cur, e)
+    [] e.a = "Read"           -> ReadClauses(cur, e)
+    [] e.a = "ParseJson"      -> << <<"C05.parsejson.total", InFrag("json", cur.m0) => e.out = "value">> >>
     [] e.a = "Other"          -> << <<"T.other", TRUE>> >>
     [] OTHER                  -> << <<"T.unknown-action", FALSE>> >>
 
 Advance(cur, e) ==
-  CASE e.a \in BuilderActions \cup {"Query", "Load", "GenAttr"} -> [cur EXCEPT !.model = e.post]
+  CASE e.a \in BuilderActions \cup {"Query", "GenAttr"} -> [cur EXCEPT !.model = e.post]
+    [] e.a = "Load" -> [cur EXCEPT !.model = e.post, !.gen = 0, !.wd = <<>>, !.fmt = ""]
     [] e.a = "Exec" -> [cur EXCEPT !.model = e.post,
                                    !.memo = Append(@, [op |-> e.args.op, f |-> e.args.f, model |-> cur.model,
                                                        out |-> e.out, ret |-> e.ret])]
     [] e.a = "Other" -> [cur EXCEPT !.other = e.args.model]
+    [] e.a = "ParseJson" -> [cur EXCEPT !.pj = [out |-> e.out, anom |-> e.anom, post |-> e.post]]
+    [] e.a = "Write" -> [cur EXCEPT !.model = e.post,
+                                    !.m0 = IF cur.gen = 0 /\ cur.wd = <<>> THEN cur.model ELSE @,
+                                    !.fmt = IF cur.wd = <<>> THEN e.args.fmt ELSE @,
+                                    !.wd = Append(@, IF e.out = "value" THEN e.ret.digest ELSE "error"),
+                                    !.wmemo = IF e.out = "value"
+                                              THEN Append(@, [fmt |-> e.args.fmt, model |-> cur.model, digest |-> e.ret.digest])
+                                              ELSE @]
+    [] e.a = "Read"  -> IF e.out = "value"
+                        THEN [cur EXCEPT !.model = e.post, !.gen = @ + 1,
+                                         !.m1 = IF cur.gen = 0 THEN e.post ELSE @]
+                        ELSE [cur EXCEPT !.gen = @ + 1]
     [] OTHER -> cur
 =============================================================================
